@@ -483,7 +483,7 @@ def write_evidence(prop, tier, seed, t0, hr, build_s, broken, violations, valida
 
 
 ASSUMPTIONS = ['clang++-14 -O1 IR of the kernel TU is a faithful compilation of /repo working-tree sources (bridged by replaying path models against a g++ -O1 ASan/UBSan build)',
-               'allocation never fails; exceptions end the path (handlers/cleanups not explored)', 'environment models listed in coverage.environment_models_called',
+               'allocation never fails; C++ exceptions are unwound through the real landing pads (Itanium ABI model in engine/models.py)', 'environment models listed in coverage.environment_models_called',
                'bounds per harness in coverage.harnesses[].bounds; anything outside is not claimed', 'z3 answers are correct; unknown/timeout is reported as broken, never as success']
 
 
